@@ -44,16 +44,27 @@ pub fn zinc_observation(v: &V) -> String {
     let t = to_zinc_string(&lv).map_err(|e| e.to_string());
     let typed = typed_text(&lv);
     let back = t.as_ref().ok().map(|t| from_str(t).map(|b| format!("{:?}", from_lib(&b))).map_err(|e| e.to_string()));
-    format!("{t:?}|{typed:?}|{back:?}")
+    let failing: Vec<String> = [1usize, 2, 5]
+        .iter()
+        .map(|&k| {
+            let mut w = FailAt { calls: 0, k, out: vec![] };
+            format!("{:?}", lv.to_zinc(&mut w).map_err(|e| e.to_string()))
+        })
+        .collect();
+    // a text that fails to decode part-way (the value's own text cut in the middle)
+    let cut = t.as_ref().ok().map(|t| {
+        let mut k = t.len() / 2;
+        while !t.is_char_boundary(k) {
+            k -= 1;
+        }
+        from_str(&t[..k]).map(|b| format!("{:?}", from_lib(&b))).map_err(|e| e.to_string())
+    });
+    format!("{t:?}|{typed:?}|{back:?}|{failing:?}|{cut:?}")
 }
 
 pub fn zinc_roundtrip(v: &V) -> Verdict {
     let lv = to_lib(v);
-    let text = match guarded(|| to_zinc_string(&lv)) {
-        Err(p) => return Err(("encode-panic".into(), p)),
-        Ok(Err(e)) => return Err(("encode-error".into(), e.to_string())),
-        Ok(Ok(t)) => t,
-    };
+    let text = zinc_text_all_writers(&lv)?;
     match guarded(|| typed_text(&lv)) {
         Err(p) => return Err(("typed-encode-panic".into(), p)),
         Ok(Some(Err(e))) => return Err(("typed-encode-error".into(), e)),
@@ -61,6 +72,16 @@ pub fn zinc_roundtrip(v: &V) -> Verdict {
             return Err(("typed-encode-differs".into(), format!("typed ToZinc gives {t:?}, Value gives {text:?}")))
         }
         _ => {}
+    }
+    // a clone (made after the original was encoded once, and encoded after the original is gone)
+    // has the same text
+    {
+        let c = lv.clone();
+        drop(lv);
+        match guarded(|| to_zinc_string(&c)) {
+            Ok(Ok(t2)) if t2 == text => {}
+            other => return Err(("clone-encodes-differently".into(), format!("original {text:?}, clone {other:?}"))),
+        }
     }
     let back = match guarded(|| from_str(&text)) {
         Err(p) => return Err(("decode-panic".into(), format!("{p}; text={text:?}"))),
@@ -149,6 +170,21 @@ pub fn run(tier: Tier) -> i32 {
     run.note("history_pool", json!(pool.len()));
     let l = super::common::history_pairs("zinc-codec", &pool, &zinc_observation, &|v: &V| to_json(v));
     run.absorb(l);
+    // accumulation: 300 repetitions (incl. encodes into a failing writer and a decode that fails
+    // part-way) on each container, then the pool and deep values
+    {
+        let before: Vec<V> = {
+            let mut b = u::pool_containers1();
+            b.extend(u::pool_containers2().into_iter().step_by(5));
+            b.extend([u::small_grid(), u::meta_grid()]);
+            b.truncate(32);
+            b
+        };
+        let mut then: Vec<V> = pool.iter().step_by(9).cloned().collect();
+        then.extend(u::size_witnesses_cached(Tier::Quick).iter().filter(|v| (100..=127).contains(&u::json_depth(v))).take(4).cloned());
+        let l = super::common::history_after_repeats("zinc-codec", &before, &then, 300, &zinc_observation, &|v: &V| to_json(v));
+        run.absorb(l);
+    }
 
     // two values in one document: [w, v, {a:w b:v}] for all ordered pairs of the pool (state inside
     // one decode or encode call: a "last unit / last zone / last string" memo)
@@ -165,7 +201,7 @@ pub fn run(tier: Tier) -> i32 {
                         Err((s2, d2)) => (s2, d2, pair),
                         Ok(()) => (stage, d, doc),
                     };
-                    local.fail(&format!("{stage}:two-values-in-one-document:{}", crate::model::shrink::shape_sig(&shown)), json!({"value": to_json(&shown)}), d);
+                    local.fail(&format!("{stage}:two-values-in-one-document:{}", crate::model::shrink::shape_sig(&shown)), json!({"value": to_json(&shown), "pair_document": true}), d);
                 }
             }
             local.count("pair-documents");
@@ -258,12 +294,15 @@ pub fn run(tier: Tier) -> i32 {
 }
 
 pub fn replay(case: &J) -> Verdict {
+    if case["history_repeats"].is_string() {
+        return super::common::replay_history_repeats(case, &|j| crate::model::v::from_json(j), &zinc_observation, "zinc-codec");
+    }
+    if case["pair_document"] == true {
+        let v = crate::model::v::from_json(&case["value"]);
+        return zinc_roundtrip(&v).map_err(|(stage, d)| (format!("{stage}:two-values-in-one-document:{}", crate::model::shrink::shape_sig(&v)), d));
+    }
     if case["history_pair"].is_string() {
-        let (w, v) = (crate::model::v::from_json(&case["before"]), crate::model::v::from_json(&case["then"]));
-        let alone = std::thread::scope(|s| s.spawn(|| zinc_observation(&v)).join().unwrap());
-        let _ = zinc_observation(&w);
-        let after = zinc_observation(&v);
-        return if alone == after { Ok(()) } else { Err(("history-changes-output:zinc-codec".into(), format!("alone {alone}, after {after}"))) };
+        return super::common::replay_history_pair(case, &|j| crate::model::v::from_json(j), &zinc_observation, "zinc-codec");
     }
     replay_value(case, &zinc_roundtrip)
 }
